@@ -151,6 +151,10 @@ def apply_along_axis(self, func, axis=None, skipna=False, args=(), **kwargs):
     result = func(obj.values, *args, **kwargs)
     funcname = func.__name__
 
+    # a reduction of everything gives a scalar (the masked-array path returns a 0-d array)
+    if isinstance(result, np.ndarray) and result.ndim == 0:
+        result = result[()]
+
     # If `axis` was None (operations on the flattened array), just returns the numpy array
     if axis is None or not isinstance(result, np.ndarray):
         return result
